@@ -799,6 +799,7 @@ pub struct Plan {
     pub codec_random: usize,    // random candidate strings for the decoders
     pub div_cases: usize,       // extra division / sqrt / legendre operands
     pub split_cases: usize,
+    pub profile: String,
 }
 
 const CTL: [u32; 2] = [0, 0xFFFFFFFF];
@@ -864,12 +865,26 @@ fn run_lattice<F: FieldApi>(tr: &mut Trace, rng: &mut Rng, plan: &Plan) {
     }
 }
 
-fn random_op<F: FieldApi>(m: &mut Mach<F>, rng: &mut Rng, q: &BigUint) -> bool {
+// operation mixes: which calls a random program draws from
+fn draw(rng: &mut Rng, profile: &str) -> usize {
+    match profile {
+        // C01: constructors, ring operations, observations
+        "ring" => *rng.pick(&[0, 1, 2, 3, 4, 5, 6, 7, 8, 9, 10, 11, 12, 13, 14, 15, 16, 17, 18, 19,
+                              20, 21, 22, 23, 24, 25, 26, 27, 28, 29, 33, 34]),
+        // C20: selection primitives between differently represented values
+        "select" => *rng.pick(&[0, 1, 4, 9, 14, 27, 28, 28, 29, 29, 30, 30, 30, 31, 31, 31, 32, 32, 32, 33, 34]),
+        // C12: division-like operations fed by ring results
+        "div" => *rng.pick(&[0, 4, 9, 14, 21, 27, 35, 35, 35, 36, 36, 37, 37, 38, 38, 39]),
+        _ => rng.below(40),
+    }
+}
+
+fn random_op<F: FieldApi>(m: &mut Mach<F>, rng: &mut Rng, q: &BigUint, profile: &str) -> bool {
     let d = rng.below(NREG);
     let a = rng.below(NREG);
     let b = rng.below(NREG);
     let v = rng.u64() as u32;
-    match rng.below(40) {
+    match draw(rng, profile) {
         0..=3 => m.raw(d, &random_raw(rng, q, F::RAW_LEN), v),
         4..=8 => m.bin("add", d, a, b, v),
         9..=13 => m.bin("sub", d, a, b, v),
@@ -938,7 +953,7 @@ fn run_random<F: FieldApi>(tr: &mut Trace, rng: &mut Rng, plan: &Plan) {
         }
         let mut i = 0;
         while ok && i < plan.script_len {
-            ok = random_op(&mut m, rng, &q);
+            ok = random_op(&mut m, rng, &q, &plan.profile);
             i += 1;
         }
         if ok { for r in 0..NREG { m.encode(r); } }
@@ -1082,7 +1097,7 @@ fn run_div<F: FieldApi>(tr: &mut Trace, rng: &mut Rng, plan: &Plan) {
 
 fn run_split<F: FieldApi>(tr: &mut Trace, rng: &mut Rng, plan: &Plan) {
     let q = F::modulus();
-    if F::split(F::cst("ONE")).is_none() { return; }
+    if let Ok(None) = guarded(|| F::split(F::cst("ONE"))) { return; }
     let one = BigUint::from(1u32);
     let half_bits = (q.bits() as usize) / 2;
     let mut ks: Vec<BigUint> = Vec::new();
